@@ -276,8 +276,8 @@ def kinds_case(ctx, alg, iso, cfg, name):
     rk = rng.choice(KINDS)
     if lk in ('number', 'npscalar') and rk in ('number', 'npscalar'):
         rk = 'mv'
-    if not any(k in ('mv',) for k in (lk, rk)) and rng.random() < 0.7:
-        # at least one side a genuine multivector most of the time
+    if 'mv' not in (lk, rk):
+        # Python only dispatches to kingdon when one operand is a multivector (-3 * [a, b] is list repetition, not kingdon's business)
         if rng.random() < 0.5:
             lk = 'mv'
         else:
